@@ -42,9 +42,35 @@ P   == [CA("P",  "P",  "I1", "kP",  "kI1") EXCEPT !.ekus = {"ct"}]      \* prece
 Pf  == [CA("Pf", "Pf", "I1", "kPf", "kI1") EXCEPT !.ekus = {"ct"}]      \* the same with a keyid+issuer+serial AKI
 Pm  == [CA("Pm", "Pm", "I1", "kPm", "kI1") EXCEPT !.ekus = {"server", "ct"}]   \* the CT usage listed after another one
 
+(* ---------- the extended key usages of the certificate that signed the (pre)certificate ---------- *)
+\* RFC 6962 3.1: "the Precertificate ... signed by ... a Precertificate Signing Certificate: a CA certificate ... with
+\* the Extended Key Usage: Certificate Transparency, OID 1.3.6.1.4.1.11129.2.4.4".  RFC 5280 4.2.1.12: ExtKeyUsageSyntax
+\* ::= SEQUENCE SIZE (1..MAX) OF KeyPurposeId - a LIST of purposes, in whatever order and company the CA wrote them.
+\* What makes the signer of a precertificate a precertificate signing certificate is that the CT purpose is A MEMBER of
+\* that list: neither its position nor the other members matter - in particular anyExtendedKeyUsage next to it takes
+\* nothing away (and anyExtendedKeyUsage alone adds nothing: a CA good "for any purpose" is a real issuer).
+\* The dimension: the list as written.  EkuSeq names it per certificate; the .ekus field ChainAdmission reads is its
+\* set of members.  Purposes: "ct", "any" (anyExtendedKeyUsage 2.5.29.37.0), "server", "client" (id-kp 1 / 2).
+EkuSeq == [P |-> <<"ct">>, Pf |-> <<"ct">>, Pm |-> <<"server", "ct">>,
+           Pca |-> <<"ct", "any">>, Pac |-> <<"any", "ct">>, Pcs |-> <<"ct", "server">>, Pacc |-> <<"any", "ct", "client">>,
+           Ia |-> <<"any">>, Is |-> <<"server">>, Ias |-> <<"any", "server">>]
+EkuCA(id) == [CA(id, id, "I1", "k" \o id, "kI1") EXCEPT !.ekus = Range(EkuSeq[id])]
+\* precertificate signing certificates: the CT purpose with anyExtendedKeyUsage after / before it, with a specific
+\* purpose after it (Pm has one before it), between anyExtendedKeyUsage and a specific purpose
+Pca == EkuCA("Pca")   Pac == EkuCA("Pac")   Pcs == EkuCA("Pcs")   Pacc == EkuCA("Pacc")
+\* real issuers whose own list must not be mistaken for one: anyExtendedKeyUsage alone, a specific purpose alone, both
+Ia == EkuCA("Ia")   Is == EkuCA("Is")   Ias == EkuCA("Ias")
+SignerEkuSeq(c) == IF c.id \in DOMAIN EkuSeq THEN EkuSeq[c.id] ELSE <<>>
+HasCT(q) == \E i \in DOMAIN q : q[i] = "ct"
+
 \* issuance: the certificates between the leaf and R1, leaf side first
-Issuance == [underI1 |-> <<I1>>, underI2 |-> <<I2, I1>>, viaP |-> <<P, I1>>, viaPf |-> <<Pf, I1>>, viaPm |-> <<Pm, I1>>]
+Issuance == [underI1 |-> <<I1>>, underI2 |-> <<I2, I1>>, viaP |-> <<P, I1>>, viaPf |-> <<Pf, I1>>, viaPm |-> <<Pm, I1>>,
+             viaPca |-> <<Pca, I1>>, viaPac |-> <<Pac, I1>>, viaPcs |-> <<Pcs, I1>>, viaPacc |-> <<Pacc, I1>>,
+             underIa |-> <<Ia, I1>>, underIs |-> <<Is, I1>>, underIas |-> <<Ias, I1>>]
 Issuances == DOMAIN Issuance
+\* the issuances of the list dimension (independent of the other dimensions: plain representatives, with and without
+\* the root in the submission, every storage mode)
+EkuIssuances == {"viaPca", "viaPac", "viaPcs", "viaPacc", "underIa", "underIs", "underIas"}
 \* what the submitter appends after the intermediates
 Tails == {"noroot", "root", "cross", "crossroot"}
 TailOf == [noroot |-> <<>>, root |-> <<R1>>, cross |-> <<R1x>>, crossroot |-> <<R1x, R2>>]
@@ -99,8 +125,11 @@ TbsForms == {"std", "serialOne", "serial7f", "serial80", "serialMax20", "bigOidE
 \* content octets of the serial number INTEGER in the submission and in the logged entry (0: not singled out)
 SerialLen(f) == CASE f = "serialOne" -> 1 [] f = "serial7f" -> 1 [] f = "serial80" -> 2 [] f = "serialMax20" -> 20 [] OTHER -> 0
 
-PreIssuers == {"viaP", "viaPf", "viaPm"}
-Shapes0 == {s \in [kind : Kinds, iss : Issuances, tail : Tails, key : Keys, quirk : Quirks, storage : Storages, trust : DOMAIN Trusts, wire : Wires, order : Orders] :
+\* the issuances through a precertificate signing certificate.  Written out (TLC would evaluate a comprehension anew for
+\* every shape); EkuDimensionComplete checks that it IS the set of issuances whose signer lists the CT purpose - membership
+\* of that purpose in the signer's list, nothing else.
+PreIssuers == {"viaP", "viaPf", "viaPm", "viaPca", "viaPac", "viaPcs", "viaPacc"}
+Shapes0 == {s \in [kind : Kinds, iss : Issuances \ EkuIssuances, tail : Tails, key : Keys, quirk : Quirks, storage : Storages, trust : DOMAIN Trusts, wire : Wires, order : Orders] :
              /\ (s.order # "std" => /\ s.kind = "precert" /\ s.iss \in {"underI1", "viaP", "viaPf"} /\ s.tail \in {"noroot", "root"}
                                      /\ s.quirk = "none" /\ s.key = "p256" /\ s.trust = "T1" /\ s.wire = "exact")
              /\ (s.iss \in PreIssuers => s.kind = "precert")
@@ -108,6 +137,10 @@ Shapes0 == {s \in [kind : Kinds, iss : Issuances, tail : Tails, key : Keys, quir
              \* the wire oddities are independent of the other dimensions: one representative combination each
              /\ (s.wire # "exact" => /\ s.iss \in {"underI1", "viaP"} /\ s.tail = "noroot" /\ s.quirk = "none"
                                      /\ s.key = "p256" /\ s.trust = "T1")}
+           \* the extended key usage lists: plain representatives, root omitted / included, every storage mode, both kinds
+           \* under a real issuer
+           \cup {s \in [kind : Kinds, iss : EkuIssuances, tail : {"noroot", "root"}, key : {"p256"}, quirk : {"none"}, storage : Storages,
+                        trust : {"T1"}, wire : {"exact"}, order : {"std"}] : s.iss \in PreIssuers => s.kind = "precert"}
 With(s, v, f) == [kind |-> s.kind, iss |-> s.iss, tail |-> s.tail, key |-> s.key, quirk |-> s.quirk, storage |-> s.storage,
                   trust |-> s.trust, wire |-> s.wire, order |-> s.order, valid |-> v, tbs |-> f]
 \* the field forms are independent of the other dimensions: they ride on one plain representative of each way an entry
@@ -158,6 +191,35 @@ Determined(s) == Admit1(s) => Stored(s) = {StoredPathOf(s)}
 FinalIssuerOK(s) == s.kind = "precert" =>
   LET c == StoredPathOf(s)[FinalIssuerPos(s)] IN c.isCA /\ "ct" \notin c.ekus
 
+\* NAMED LAW EkuMembershipDecides (C01: "the final issuer's key hash, also when a dedicated precert-signing issuer was
+\* used"; RFC 6962 3.1 / 3.2).  The signer of a precertificate is a precertificate signing certificate exactly when the
+\* CT purpose is a member of its extended key usage list; then the entry names the NEXT certificate of the path (key
+\* hash, issuer name, authority key identifier), otherwise the signer itself.  Any two signers whose lists have the
+\* same answer to "is the CT purpose in it" give the same position, whatever else the lists hold and in whatever order.
+EkuMembershipDecides(s) ==
+  LET q == SignerEkuSeq(Submitted(s)[2]) IN
+    /\ Range(q) = Submitted(s)[2].ekus
+    /\ ViaPreIssuer(s) = HasCT(q)
+    /\ (s.kind = "precert" /\ Admit1(s)) =>
+          /\ (HasCT(q) => StoredPathOf(s)[FinalIssuerPos(s)] = Submitted(s)[3])
+          /\ (~HasCT(q) => StoredPathOf(s)[FinalIssuerPos(s)] = Submitted(s)[2])
+    \* every permutation / extension of a list with the CT purpose is a list with the CT purpose (no member masks another)
+    /\ \A t \in DOMAIN EkuSeq : (Range(EkuSeq[t]) = Range(q) /\ q # <<>>) => HasCT(EkuSeq[t]) = HasCT(q)
+\* the dimension is populated: the CT purpose alone, before and after anyExtendedKeyUsage, before and after a specific
+\* purpose, between both; and lists without it that hold anyExtendedKeyUsage alone, a specific purpose alone, both
+EkuDimensionComplete ==
+  /\ PreIssuers = {i \in Issuances : HasCT(SignerEkuSeq(Issuance[i][1]))}
+  /\ \E t \in DOMAIN EkuSeq : EkuSeq[t] = <<"ct">>
+  /\ \E t \in DOMAIN EkuSeq : Len(EkuSeq[t]) = 2 /\ EkuSeq[t][1] = "ct" /\ EkuSeq[t][2] = "any"
+  /\ \E t \in DOMAIN EkuSeq : Len(EkuSeq[t]) = 2 /\ EkuSeq[t][1] = "any" /\ EkuSeq[t][2] = "ct"
+  /\ \E t \in DOMAIN EkuSeq : Len(EkuSeq[t]) = 2 /\ EkuSeq[t][1] = "ct" /\ EkuSeq[t][2] \notin {"ct", "any"}
+  /\ \E t \in DOMAIN EkuSeq : Len(EkuSeq[t]) = 2 /\ EkuSeq[t][2] = "ct" /\ EkuSeq[t][1] \notin {"ct", "any"}
+  /\ \E t \in DOMAIN EkuSeq : Len(EkuSeq[t]) = 3 /\ EkuSeq[t][2] = "ct" /\ EkuSeq[t][1] = "any"
+  /\ \E t \in DOMAIN EkuSeq : EkuSeq[t] = <<"any">>
+  /\ \E t \in DOMAIN EkuSeq : ~HasCT(EkuSeq[t]) /\ "any" \notin Range(EkuSeq[t])
+  /\ \E t \in DOMAIN EkuSeq : ~HasCT(EkuSeq[t]) /\ "any" \in Range(EkuSeq[t]) /\ Len(EkuSeq[t]) > 1
+  /\ EkuIssuances \subseteq Issuances /\ \A i \in EkuIssuances : Issuance[i][1].id \in DOMAIN EkuSeq
+
 \* NAMED LAW FieldsVerbatim (C01: "the RFC 6962 entry an independent client derives from the submitted chain"; 3.2: "the
 \* TBSCertificate component of the Precertificate - that is, without the signature and the poison extension").  The
 \* logged entry carries validity and serial number in the form the CA wrote: UTCTime exactly for 1950 .. 2049, four
@@ -179,5 +241,7 @@ Case(s) == [shape |-> s, admit |-> Admit1(s), submitted |-> Ids(Submitted(s)), p
             entryType |-> IF s.kind = "precert" THEN "precert_entry" ELSE "x509_entry",
             finalIssuer |-> IF s.kind = "precert" THEN StoredPathOf(s)[FinalIssuerPos(s)].id ELSE "",
             viaPreIssuer |-> ViaPreIssuer(s),
+            \* the extended key usage list of the certificate that signed the leaf, as written (<<>>: no such extension)
+            signerEkus |-> SignerEkuSeq(Submitted(s)[2]),
             validity |-> LoggedValidity(s), serialLen |-> SerialLen(s.tbs)]
 =============================================================================
